@@ -72,7 +72,7 @@ package ingress
 
 // IngressClass <-> reader, linked before the class is read (also when the read fails)
 //@ func (*converter).readIngressClass
-//@   props C01
+//@   props C01 C08
 //@   ensures tracked: calls(GetIngressClass) == (ingressClassName != nil ? 1 : 0) && calls(TrackNames) == calls(GetIngressClass)
 //@   at call TrackNames#1 assert link: $arg1 == convtypes.ResourceIngressClass && $arg2 == *ingressClassName && $arg3 == source.Type && $arg4 == source.Namespace + "/" + source.Name
 //@   at call GetIngressClass#1 assert first: calls(TrackNames) == 1 && $arg1 == *ingressClassName
@@ -197,6 +197,7 @@ package ingress
 //@ count UpdBack = (annotations.Updater).UpdateBackendConfig
 //@ func (*converter).syncAnnotations
 //@   props C06
+//@   map-range-collects-only
 //@   loop 1 invariant collect: calls(UpdHost) == 0 && calls(UpdBack) == 0 && (cap(hostnames) == 0 || fresh(hostnames))
 //@   loop 2 entry sorted-hosts:    $rng(2) == hostnames && forall a int, b int :: 0 <= a && a < b && b < len(hostnames) ==> !(hostnames[b] < hostnames[a])
 //@   loop 2 invariant walk:        calls(UpdBack) == 0
@@ -227,8 +228,9 @@ package ingress
 //@ count UpdGlobal = (annotations.Updater).UpdateGlobalConfig
 //@ count SyncIng = (*converter).syncIngress
 //@ func (*converter).syncFull
-//@   props C15 C09
+//@   props C15 C09 C06 C03
 //@   assume-pre sortIngress
+//@   at call sortIngress#1 assert sorted-first: calls(SyncIng) == 0
 //@   at call syncIngress#1 assert global-first: calls(UpdGlobal) == 1
 //@   at call UpdateGlobalConfig#1 assert before-any: calls(SyncIng) == 0
 //@   loop 1 invariant once: calls(UpdGlobal) == 1
